@@ -1391,10 +1391,23 @@ func c10ListVerbatim(c *Ctx) {
 		src := "?"
 		if ok {
 			src = path(s2.Val)
-			if u, isLoad := strip(s2.Val).(*ssa.UnOp); isLoad && u.Op == token.MUL {
-				if fa, isFA := u.X.(*ssa.FieldAddr); isFA {
-					fv, _ := fieldVarOf(fa)
-					good = fv.Name() == "Endpoints" && fv != endF
+			isClaimLoad := func(v ssa.Value) bool {
+				if u, isLoad := strip(v).(*ssa.UnOp); isLoad && u.Op == token.MUL {
+					if fa, isFA := u.X.(*ssa.FieldAddr); isFA {
+						fv, _ := fieldVarOf(fa)
+						return fv.Name() == "Endpoints" && fv != endF
+					}
+				}
+				return false
+			}
+			good = isClaimLoad(s2.Val)
+			// an element-for-element copy is the same list: slices.Clone(x), append([]string(nil), x...)
+			if cl, isCall := strip(s2.Val).(*ssa.Call); isCall && !good {
+				switch commonName(&cl.Call) {
+				case "slices.Clone":
+					good = isClaimLoad(cl.Call.Args[0])
+				case "builtin append":
+					good = len(cl.Call.Args) == 2 && isNilConst(cl.Call.Args[0]) && isClaimLoad(cl.Call.Args[1])
 				}
 			}
 		}
